@@ -15,7 +15,7 @@ CONSTANTS
   Passes = "user_table"
   QNum = {0,7,12,15,112,1012}
   QShift = 12
-  QDen = {4,8}
+  QDen = {4}
   ENum = {0,6,14,18}
   EShift = 12
   SNum = {3,10}
